@@ -1061,7 +1061,6 @@ TraverseSchema::traverseChoiceSequence(const DOMElement* const elem,
         hasChildren = true;
         contentSpecNode.release();
         bool seeParticle = false;
-        bool wasAny = false;
         const XMLCh* childName = child->getLocalName();
 
         if (XMLString::equals(childName, SchemaSymbols::fgELT_ELEMENT)) {
@@ -1115,7 +1114,6 @@ TraverseSchema::traverseChoiceSequence(const DOMElement* const elem,
 
             contentSpecNode.reset(traverseAny(child));
             seeParticle = true;
-            wasAny = true;
         }
         else {
             reportSchemaError(child, XMLUni::fgValidityDomain, XMLValid::GroupContentRestricted,
@@ -1125,7 +1123,8 @@ TraverseSchema::traverseChoiceSequence(const DOMElement* const elem,
 
         if (seeParticle) {
             checkMinMax(contentSpecNode.get(), child, Not_All_Context);
-            if (wasAny && contentSpecNode.get()->getMaxOccurs() == 0) {
+            // minOccurs = maxOccurs = 0: the item corresponds to no component at all
+            if (contentSpecNode.get() && contentSpecNode.get()->getMaxOccurs() == 0) {
                 contentSpecNode.reset(0);
             }
         }
@@ -2180,6 +2179,11 @@ TraverseSchema::traverseAll(const DOMElement* const elem, bool& hasChildren) {
                 , fGrammarPoolMemoryManager
             ));
             checkMinMax(contentSpecNode.get(), child, All_Element);
+            // minOccurs = maxOccurs = 0: the item corresponds to no component at all
+            if (contentSpecNode.get()->getMaxOccurs() == 0) {
+                contentSpecNode.reset(0);
+                continue;
+            }
         }
         else {
 
